@@ -45,7 +45,10 @@ def case(cls, ops, evpn=False, shard=0, ctrs=None):
                       [o[8][1] for o in ops if o[0] == 'ins' and o[8] is not None] +
                       [o[4] for o in ops if o[0] == 'rem' and o[4] is not None] +
                       [o[3] for o in ops if o[0] == 'drop' and o[3] is not None]))
-    return dict(shard=shard, addrs=[1, 2, 3, 4], ctrs=ctrs if ctrs is not None else toks, evpn=evpn, ops=list(ops), cls=cls)
+    # the peers that occur, plus one that never does
+    addrs = sorted(set([o[1][1] for o in ops if o[0] in ('ins', 'rem')] + [o[2] for o in ops if o[0] in ('drop', 'restale')]))
+    addrs = addrs + [max(addrs + [0]) + 1]
+    return dict(shard=shard, addrs=addrs, ctrs=ctrs if ctrs is not None else toks, evpn=evpn, ops=list(ops), cls=cls)
 
 def ins(s, net, a, rpid=0, nh=1, filt=False, nhinv=False, lim=None):
     return ('ins', s, net, rpid, nh, a, filt, nhinv, lim)
@@ -280,16 +283,16 @@ def hops_cases():
     return out
 
 # ------------------------------------------------------------------------- ids
-def ids_cases():
+def ids_cases(big=False):
     out = []
-    n = 131
+    n = 131 if big else 67
     ops = [ins(P1, 10 + i, MID) for i in range(n)]
-    free = [0, 62, 63, 64, 65, 127, 128, 130]
+    free = [0, 62, 63, 64, 65, 127, 128, 130] if big else [0, 62, 63, 64, 65, 66]
     ops += [('rem', P1, 10 + i, 0, None) for i in free]
     ops += [ins(P2, 300 + i, MID, nh=2) for i in range(len(free) + 2)]      # lowest free ids first, then new ones
     ops += [('restale', False, 1), ('drop', 1, 1, None)]
     ops += [ins(P2, 400, MID, nh=2), ins(P2, 401, MID, nh=2)]
-    out.append(case('ids:131_prefixes_free_reuse', ops, shard=255))
+    out.append(case('ids:%d_prefixes_free_reuse' % n, ops, shard=255))
     # a prefix-limit rejection of a brand-new prefix must give its id back
     ops = [ins(P1, 10 + i, MID, lim=(64, 1)) for i in range(66)] + [('rem', P1, 10, 0, 1), ins(P1, 90, MID, lim=(64, 1)), ins(P1, 91, MID, lim=(64, 1))]
     out.append(case('ids:limit_64_rejections', ops, shard=1))
@@ -343,11 +346,11 @@ def wide_cases():
                                                                      ins((2, 2, 5, role2), 1, A(178), rpid=1, nh=2), ('restale', False, 2)]))
     return out
 
-def all_enumerated(which):
+def all_enumerated(which, tier='quick'):
     """which: 'c02' | 'c06' | 'c15' -- the shared classes plus the ones closest to the property"""
-    out = duels() + hops_cases() + wide_cases() + ids_cases()
+    out = duels() + hops_cases() + wide_cases() + ids_cases() + (ids_cases(big=True)[:1] if tier != 'quick' else [])
     if which == 'c15':
-        out += limit_cases() + state_x_op(limits=1) + state_x_op(limits=2)
+        out += limit_cases() + state_x_op(limits=1)
     elif which == 'c06':
         out += state_x_op() + limit_cases()
     else:
